@@ -111,6 +111,7 @@ func VerifH_C03_StreamListener() {
 	s := &tcpServer{r: r, maxConcurrent: 4, idleTimeout: 1}
 	c := newVTCPConn()
 	ids := []uint16{verifrt.U16("id"), verifrt.U16("id")}
+	vDistinct(ids)
 	done := make(chan struct{})
 	go func() { s.handleConn(c); close(done) }()
 	c.inbox <- append(vFrame(vQueryMsg(ids[0], 'a', false, 0)), vFrame(vQueryMsg(ids[1], 'b', false, 0))...)
@@ -122,8 +123,8 @@ func VerifH_C03_StreamListener() {
 	verifrt.Assert(len(bodies) == 2, "exactly one response per query")
 	seen := [2]int{}
 	for _, b := range bodies {
-		i := int(b[13] - 'a')
-		verifrt.Assert(i == 0 || i == 1, "response question is one of the queries")
+		i := vWhichQuery(b, ids)
+		verifrt.Assert(len(b) >= 19, "answers and SERVFAILs echo the question")
 		seen[i]++
 		rcode := b[3] & 0xF
 		verifrt.Assert(rcode == 0 || rcode == 2, "answered, or SERVFAIL when the upstream failed")
